@@ -2,6 +2,7 @@
 (***************************************************************************)
 (* Trace validation for DataRx.  A trace is a list of per-cycle records     *)
 (*   [active, valid, data          -- UTMI receive inputs of the cycle      *)
+(*    rst                           -- the clock domain's reset in this cycle *)
 (*    sv, nx, pl, cp, mm, rfr, pid] -- stream.valid/next/payload,           *)
 (*                                     packet_complete, crc_mismatch,       *)
 (*                                     ready_for_response, packet_id        *)
@@ -26,8 +27,11 @@ TInit == Init /\ tid \in 1..Len(Logs) /\ l = 1 /\ status = "ok" /\ dc = "none"
 TNext == /\ status = "ok"
          /\ l <= Len(Logs[tid])
          /\ dc' = Due1(InOf(Logs[tid][l]))
-         /\ status' = FailingD(InOf(Logs[tid][l]), OutOf(Logs[tid][l]), dc')
-         /\ IF status' = "ok" THEN StepD(InOf(Logs[tid][l]), OutOf(Logs[tid][l]), dc') ELSE UNCHANGED vars
+         /\ status' = IF Logs[tid][l].rst /\ ~ResetLegal(InOf(Logs[tid][l])) THEN "env_illegal_input"
+                       ELSE FailingD(InOf(Logs[tid][l]), OutOf(Logs[tid][l]), dc')
+         /\ IF status' # "ok" THEN UNCHANGED vars
+            ELSE IF Logs[tid][l].rst THEN ResetStepD(InOf(Logs[tid][l]), OutOf(Logs[tid][l]))
+            ELSE StepD(InOf(Logs[tid][l]), OutOf(Logs[tid][l]), dc')
          /\ l' = l + 1
          /\ UNCHANGED tid
 
